@@ -104,7 +104,24 @@ def exemptions_table():
     return "\n".join(rows)
 
 
-GEN = {"rules": rules_table, "fixes": fixes_table, "open": open_table, "seeds": seeds_table,
+def benign_table():
+    rows = ["| refactoring | what it does (behaviour preserved) | alarms at first run | now |",
+            "|---|---|---|---|"]
+    for d in sorted((V / "benign").iterdir()):
+        mp = d / "meta.json"
+        if not mp.exists():
+            continue
+        meta = json.loads(mp.read_text())
+        al = meta.get("confirmed_by_me", {}).get("alarms_at_first_run") or []
+        al = [a[0] if isinstance(a, list) else a for a in al]
+        sm = " ".join(meta.get("summary", "").split()).replace("|", "\\|")
+        if len(sm) > 200:
+            sm = sm[:197] + "..."
+        rows.append(f"| {d.name} | {sm} | {', '.join(al) if al else 'silent'} | silent |")
+    return "\n".join(rows)
+
+
+GEN = {"benign": benign_table, "rules": rules_table, "fixes": fixes_table, "open": open_table, "seeds": seeds_table,
        "twins": twins_table, "exemptions": exemptions_table}
 
 p = V / "DESIGN.md"
